@@ -29,6 +29,9 @@ func arn(r string) string { return "arn:aws:kms:" + r + ":key" }
 // "arn" recorded in an envelope entry is only the name its writer was configured with).
 var altNames bool
 
+// keyARN: what the service reports as KeyId in its responses - the key's ARN, however the request named the key.
+func keyARN(r string) *string { a := arn(r); return &a }
+
 func arnFor(r string) string {
 	if altNames {
 		return "arn:aws:kms:" + r + ":alias/key"
@@ -155,7 +158,7 @@ func (f *fakeV1) EncryptWithContext(_ awsv1.Context, in *kmsv1.EncryptInput, _ .
 	if err != nil {
 		return nil, err
 	}
-	return &kmsv1.EncryptOutput{CiphertextBlob: b, KeyId: in.KeyId}, nil
+	return &kmsv1.EncryptOutput{CiphertextBlob: b, KeyId: keyARN(f.region)}, nil
 }
 
 func (f *fakeV1) GenerateDataKeyWithContext(_ awsv1.Context, in *kmsv1.GenerateDataKeyInput, _ ...request.Option) (*kmsv1.GenerateDataKeyOutput, error) {
@@ -163,7 +166,7 @@ func (f *fakeV1) GenerateDataKeyWithContext(_ awsv1.Context, in *kmsv1.GenerateD
 	if err != nil {
 		return nil, err
 	}
-	return &kmsv1.GenerateDataKeyOutput{Plaintext: pt, CiphertextBlob: b, KeyId: in.KeyId}, nil
+	return &kmsv1.GenerateDataKeyOutput{Plaintext: pt, CiphertextBlob: b, KeyId: keyARN(f.region)}, nil
 }
 
 func (f *fakeV1) DecryptWithContext(_ awsv1.Context, in *kmsv1.DecryptInput, _ ...request.Option) (*kmsv1.DecryptOutput, error) {
@@ -186,7 +189,7 @@ func (f *fakeV2) Encrypt(_ context.Context, in *kmsv2.EncryptInput, _ ...func(*k
 	if err != nil {
 		return nil, err
 	}
-	return &kmsv2.EncryptOutput{CiphertextBlob: b, KeyId: in.KeyId}, nil
+	return &kmsv2.EncryptOutput{CiphertextBlob: b, KeyId: keyARN(f.region)}, nil
 }
 
 func (f *fakeV2) GenerateDataKey(_ context.Context, in *kmsv2.GenerateDataKeyInput, _ ...func(*kmsv2.Options)) (*kmsv2.GenerateDataKeyOutput, error) {
@@ -194,7 +197,7 @@ func (f *fakeV2) GenerateDataKey(_ context.Context, in *kmsv2.GenerateDataKeyInp
 	if err != nil {
 		return nil, err
 	}
-	return &kmsv2.GenerateDataKeyOutput{Plaintext: pt, CiphertextBlob: b, KeyId: in.KeyId}, nil
+	return &kmsv2.GenerateDataKeyOutput{Plaintext: pt, CiphertextBlob: b, KeyId: keyARN(f.region)}, nil
 }
 
 func (f *fakeV2) Decrypt(_ context.Context, in *kmsv2.DecryptInput, _ ...func(*kmsv2.Options)) (*kmsv2.DecryptOutput, error) {
@@ -278,7 +281,13 @@ func WrapUnwrap() {
 	w := newWorld(n, true, true)
 	vx.Now()
 	vx.ClockFreeze(true)
+	// altwrap=1: the wrapping side may be configured with alias ARNs as well (the service still reports key ARNs)
+	if vx.Param("altwrap") == 1 && vx.Choice("writer_names_keys_by_alias", 2) == 1 {
+		altNames = true
+		vx.Tag("writer_arns", "alias")
+	}
 	wrapper, _ := build(wv, w, n, preferred)
+	altNames = false
 	key := vx.Bytes("systemkey", 32)
 	keep := append([]byte(nil), key...)
 	if vx.Param("shortkey") == 1 && n == 1 {
